@@ -358,6 +358,16 @@ static void case_tiny_scale_witness(Rng& rng, uint64_t index)
 	C.method = 1;
 	C.ncall	 = nc[index % 4];
 	C.seed	 = 4242u + (unsigned) index;
+	if(index == 0)
+	{
+		// the request that exposed D31 (thorough tier, constants#14449 at VERIF_SEED=1), bit for bit
+		C.R.lo	 = {-0x1.0e0fd0efaca04p+7, 0.0, 0.0, 0x1.d1f3bc47729eap+6, 0x1.8fba1d72485eap+9};
+		C.R.w	 = {0x1.0509b0d76f502p+2, 0x1.bed3f342ee8eap+5, 0x1.3b8c3954399ap+6, 0x1.aaf59a96159cap-2, 0x1.3a4cd99a04437p+6};
+		C.F.c	 = -0x1.cef3711e7490ep-537;
+		C.F.mean = C.F.c, C.F.m2 = (ld) C.F.c * C.F.c;
+		C.ncall	 = 14924;
+		C.seed	 = 3541362010u;
+	}
 	set_params(call_json(C).i("recorded_witness", (long long) index));
 	hash_param_u(index);
 	mark_nontrivial();
